@@ -412,6 +412,7 @@ class Check(PropertyCheck):
         sendcmd = {}          # rid -> (kind, dst, tag) of its send command
         accepted = set()
         ok_confirms = []      # (event index, destination, tag) of successful confirmations
+        all_confirms = []     # (event index, destination, tag, ok)
         created = {}          # rid -> index of its send_packet call
         in_lock = None        # request currently between its first set-up/send command and the send reply
         last_cmd = {}         # rid -> 'setup' | 'send' : the command that request is waiting on
@@ -436,6 +437,7 @@ class Check(PropertyCheck):
                 # destination and tag whenever it arrives during the request's lifetime (the statement fixes no order)
                 if ev[3] == 1:
                     ok_confirms.append((idx, ev[1], ev[2]))
+                all_confirms.append((idx, ev[1], ev[2], ev[3]))
             for e in st:
                 if e[0] in ("setup", "send"):
                     if in_lock is not None and in_lock != e[1]:
@@ -448,6 +450,17 @@ class Check(PropertyCheck):
                     rid, res = e[1], e[2]
                     if in_lock == rid:
                         in_lock = None
+                    if rid in sendcmd and sendcmd[rid][0] == 0 and rid in accepted and res in (1, 2):
+                        # the NCP accepted the message and its confirmation (same destination, same tag) arrived while the
+                        # request was in progress: success returns normally, failure raises a delivery error -- never a timeout
+                        _, dst0, tag0 = sendcmd[rid]
+                        mine = [c for c in all_confirms if c[0] >= created.get(rid, 0) and c[0] <= idx and c[1] == dst0 and c[2] == tag0]
+                        if mine and mine[0][3] == 1:
+                            return (f"unicast {rid} was accepted and its confirmation (destination {dst0:#x}, tag {tag0}) reported success, "
+                                    f"but the call ended with {'a timeout' if res == 2 else 'a delivery error'}")
+                        if mine and mine[0][3] == 0 and res == 2:
+                            return (f"unicast {rid} was accepted and its confirmation reported failure, but the call ended with a timeout "
+                                    f"instead of a delivery error")
                     if res == 0 and rid in sendcmd and sendcmd[rid][0] == 0:
                         if rid not in accepted:
                             return f"unicast {rid} returned normally although the NCP never accepted the message"
